@@ -68,21 +68,26 @@ pub fn gcd_internal<const N: usize, const EXT: bool>(
     // (x,y) generate the same ideal as original (n,p).
     let mut x = *n;
     let mut y = *p;
+    #[cfg(yamaquasi_verif)] crate::verif::ev(|| format!("\"op\":\"gcd_enter\",\"N\":{},\"ext\":{},\"n\":{},\"p\":{}", N, EXT, vhook::un(n), vhook::un(p)));
     // Now gcd(x,y) is odd: x,y can never be simultaneously even.
     loop {
         //eprintln!("x={x}");
         //eprintln!("y={y}");
         // Make sure x > y.
+        #[cfg(yamaquasi_verif)] let vswap = y >= x;
         if y >= x {
             (biga, bigb, bigc, bigd) = (bigc, bigd, biga, bigb);
             (x, y) = (y, x)
         }
+        #[cfg(yamaquasi_verif)] { if vswap { crate::verif::ev(|| format!("\"op\":\"gcd_swap\"{}", vhook::st::<N, EXT>(&x, &y, &biga, &bigb, &bigc, &bigd))); } }
         let lx = x.bits();
         let ly = y.bits();
         if lx == 0 {
+            #[cfg(yamaquasi_verif)] crate::verif::ev(|| format!("\"op\":\"gcd_exit\",\"how\":\"ret_y\"{}", vhook::res::<N, EXT>(&y, &bigc, &bigd)));
             return (y, bigc, bigd);
         }
         if ly == 0 {
+            #[cfg(yamaquasi_verif)] crate::verif::ev(|| format!("\"op\":\"gcd_exit\",\"how\":\"ret_x\"{}", vhook::res::<N, EXT>(&x, &biga, &bigb)));
             return (x, biga, bigb);
         }
         if lx < 64 && ly < 64 {
@@ -92,9 +97,11 @@ pub fn gcd_internal<const N: usize, const EXT: bool>(
                 let e = Integer::extended_gcd(&x0, &y0);
                 let u: BInt<N> = BInt::from(e.x) * biga + BInt::from(e.y) * bigc;
                 let v: BInt<N> = BInt::from(e.x) * bigb + BInt::from(e.y) * bigd;
+                #[cfg(yamaquasi_verif)] crate::verif::ev(|| format!("\"op\":\"gcd_exit\",\"how\":\"fin64\",\"ex\":{},\"ey\":{}{}", vhook::si(e.x), vhook::si(e.y), vhook::res::<N, EXT>(&BUint::<N>::from_digit(e.gcd as u64), &u, &v)));
                 return (BUint::from_digit(e.gcd as u64), u, v);
             } else {
                 let d = Integer::gcd(&x0, &y0) as u64;
+                #[cfg(yamaquasi_verif)] crate::verif::ev(|| format!("\"op\":\"gcd_exit\",\"how\":\"fin64\"{}", vhook::res::<N, EXT>(&BUint::<N>::from_digit(d), &biga, &bigb)));
                 return (BUint::from_digit(d), BInt::ZERO, BInt::ZERO);
             }
         }
@@ -112,8 +119,10 @@ pub fn gcd_internal<const N: usize, const EXT: bool>(
             if EXT {
                 let q = x / y;
                 let r = x - q * y;
+                #[cfg(yamaquasi_verif)] let mut vplus = false;
                 let (c, d) = if (r << 1) > y {
                     // Use (q+1)y - x for smaller y.
+                    #[cfg(yamaquasi_verif)] { vplus = true; }
                     (x, y) = (y, y - r);
                     let q = BInt::<N>::cast_from(q) + BInt::<N>::ONE;
                     (q * bigc - biga, q * bigd - bigb)
@@ -124,8 +133,10 @@ pub fn gcd_internal<const N: usize, const EXT: bool>(
                 };
                 (biga, bigb) = (bigc, bigd);
                 (bigc, bigd) = (c, d);
+                #[cfg(yamaquasi_verif)] crate::verif::ev(|| format!("\"op\":\"gcd_slow\",\"plus\":{},\"why\":{},\"q\":{}{}", vplus, vhook::why::<N>(lx, ly, ytop), vhook::un(&q), vhook::st::<N, EXT>(&x, &y, &biga, &bigb, &bigc, &bigd)));
             } else {
                 (x, y) = (y, x % y);
+                #[cfg(yamaquasi_verif)] crate::verif::ev(|| format!("\"op\":\"gcd_slow\",\"plus\":false,\"why\":{}{}", vhook::why::<N>(lx, ly, ytop), vhook::st::<N, EXT>(&x, &y, &biga, &bigb, &bigc, &bigd)));
             }
             continue;
         }
@@ -153,6 +164,7 @@ pub fn gcd_internal<const N: usize, const EXT: bool>(
                 (bigc, bigd) = (-bigc, -bigd);
             }
         }
+        #[cfg(yamaquasi_verif)] crate::verif::ev(|| format!("\"op\":\"gcd_fast\",\"a\":{},\"b\":{},\"c\":{},\"d\":{},\"negx\":{},\"negy\":{},\"xtop\":{},\"ytop\":{},\"bits\":{},\"size\":{}{}", vhook::si(a), vhook::si(b), vhook::si(c), vhook::si(d), negx, negy, vhook::uw(xtop), vhook::uw(ytop), bits, size, vhook::st::<N, EXT>(&x, &y, &biga, &bigb, &bigc, &bigd)));
     }
 }
 
@@ -284,4 +296,64 @@ fn test_invmod() {
         (U1024::from_digit(a) * binv) % n,
         U1024::from_str("22160499496729207058").unwrap()
     );
+}
+
+/// Verification encoders for the per-iteration events of `gcd_internal` (cfg(yamaquasi_verif) only).
+/// Unsigned values are written as {"w":[64-bit words, little endian]}, signed ones as
+/// {"neg":bool,"w":[words of the magnitude]}; the harness re-encodes them for the trace specification.
+#[cfg(yamaquasi_verif)]
+pub mod vhook {
+    use super::*;
+
+    pub fn un<const N: usize>(x: &BUint<N>) -> String {
+        format!("{{\"w\":{:?}}}", x.digits())
+    }
+    pub fn sn<const N: usize>(x: &BInt<N>) -> String {
+        format!("{{\"neg\":{},\"w\":{:?}}}", x.is_negative(), x.unsigned_abs().digits())
+    }
+    pub fn uw(x: u64) -> String {
+        format!("{{\"w\":[{}]}}", x)
+    }
+    pub fn si(x: i64) -> String {
+        format!("{{\"neg\":{},\"w\":[{}]}}", x < 0, x.unsigned_abs())
+    }
+    /// State of the loop: `,"x":..,"y":..` and the cofactor matrix when EXT.
+    pub fn st<const N: usize, const EXT: bool>(
+        x: &BUint<N>,
+        y: &BUint<N>,
+        a: &BInt<N>,
+        b: &BInt<N>,
+        c: &BInt<N>,
+        d: &BInt<N>,
+    ) -> String {
+        if EXT {
+            format!(
+                ",\"x\":{},\"y\":{},\"A\":{},\"B\":{},\"C\":{},\"D\":{}",
+                un(x),
+                un(y),
+                sn(a),
+                sn(b),
+                sn(c),
+                sn(d)
+            )
+        } else {
+            format!(",\"x\":{},\"y\":{}", un(x), un(y))
+        }
+    }
+    /// Returned value: `,"g":..` and the Bezout cofactors when EXT.
+    pub fn res<const N: usize, const EXT: bool>(g: &BUint<N>, u: &BInt<N>, v: &BInt<N>) -> String {
+        if EXT {
+            format!(",\"g\":{},\"u\":{},\"v\":{}", un(g), sn(u), sn(v))
+        } else {
+            format!(",\"g\":{}", un(g))
+        }
+    }
+    /// Which of the three conditions sent the iteration to the multiprecision quotient
+    /// (1: x near the type width, 2: y near the type width, 4: top word of y below 2^32).
+    pub fn why<const N: usize>(lx: u32, ly: u32, ytop: u64) -> u32 {
+        (lx + 36 >= N as u32 * 64) as u32 | ((ly + 36 >= N as u32 * 64) as u32) << 1 | ((ytop < 1 << 32) as u32) << 2
+    }
+    pub fn reduce64(x: u64, y: u64) -> (i64, i64, i64, i64) {
+        super::reduce64(x, y)
+    }
 }
